@@ -496,6 +496,36 @@ def _json_faults(tv0: TokenView, rng):
         return True
     yield mk("add_unprotected", "member added to the shared unprotected header (stays valid)", add_unprot)
 
+    def unprot_zip(tv):
+        if "zip" in tv.merged(0):
+            return False
+        u = tv.obj.get("unprotected") or {}
+        u["zip"] = "DEF"
+        tv.obj["unprotected"] = u
+        return True
+    yield mk("unprotected_zip", "zip=DEF added to the shared unprotected header (zip is only meaningful when integrity protected)", unprot_zip)
+
+    def rcpt_zip(tv):
+        if "zip" in tv.merged(0):
+            return False
+        r = tv.obj["recipients"][0] if general else tv.obj
+        h = r.get("header") or {}
+        h["zip"] = "DEF"
+        r["header"] = h
+        return True
+    yield mk("recipient_zip", "zip=DEF added to a per-recipient header", rcpt_zip)
+
+    def move_zip(tv):
+        q = tv.protected_obj()
+        if not isinstance(q, dict) or "zip" not in q:
+            return False
+        u = tv.obj.get("unprotected") or {}
+        u["zip"] = q.pop("zip")
+        tv.obj["unprotected"] = u
+        tv.set_protected_obj(q)
+        return True
+    yield mk("move_zip_unprotected", "zip moved from the protected to the unprotected header", move_zip)
+
     def move_enc(tv):
         q = tv.protected_obj()
         if not isinstance(q, dict) or "enc" not in q:
